@@ -819,6 +819,74 @@ def iter_methods(ctx, n):
             ctx.violation('chunk-type' if isinstance(ex, TypeError) else 'raises', case, 'iterencode raised %s: %s' % (type(ex).__name__, ex), KNOWN_PRED)
 
 
+def reuse_after_reset(ctx, n):
+    """the same decoder / encoder / stream object used for a second document after reset() (or seek(0)) gives what
+    a fresh object gives: a 'schedule' that spans documents"""
+    import io
+    rng = ctx.rng
+    encs = ['utf-8', 'utf-8-sig', 'utf-16', 'utf-16-le', 'utf-32', 'utf-32-be', 'latin-1', 'iso-8859-15', None]
+    for _ in range(n):
+        docs = []
+        for _k in range(2):
+            t = rng.choice(['@charset "x";', '@charset "utf-8";', '', 'a{b:c}', '@charset "ascii"; ']) + gen_text(rng, 8).replace('\ud800', '')
+            docs.append(t)
+        e = rng.choice(encs)
+        try:
+            datas = [codecs.getencoder('css')(t, encoding=e)[0] if e else codecs.encode(t, 'css') for t in docs]
+            raw = e is not None and rng.random() < 0.5
+            if raw:     # the declared name is not the encoding used: decoding rewrites it
+                datas = [t.encode(e) for t in docs]
+        except (UnicodeError, LookupError):
+            continue
+        force = True if raw else rng.random() < 0.7
+        def chunked(b):
+            k = sorted(rng.randrange(0, len(b) + 1) for _ in range(rng.randrange(0, 3)))
+            return [b[i:j] for i, j in zip([0] + k, k + [len(b)])]
+        ch = [chunked(b) for b in datas]
+        case = {'op': 'incdec-reuse', 'docs': [list(b) for b in datas], 'encoding': e, 'force': force, 'chunks': [[list(c) for c in cs] for cs in ch]}
+        ctx.case(('incdec-reuse', tuple(datas), e, force, repr(ch)), nontrivial=True)
+        try:
+            d = codecs.getincrementaldecoder('css')(**kw(e, force))
+            got = []
+            for cs in ch:
+                got.append(''.join(d.decode(c, i == len(cs) - 1) for i, c in enumerate(cs)))
+                d.reset()
+            want = [''.join(impl_incdec([b], e, force)[0]) for b in datas]
+            if got != want and impl_incdec([datas[0]], e, force)[1] is None and impl_incdec([datas[1]], e, force)[1] is None:
+                ctx.violation('incdec-reuse', case, 'one decoder, reset() between documents: %r; a fresh decoder each: %r' % (got, want), KNOWN_PRED)
+        except Exception as ex:
+            if impl_incdec([datas[0]], e, force)[1] is None and impl_incdec([datas[1]], e, force)[1] is None:
+                ctx.violation('incdec-reuse', case, 'reused decoder raised %s: %s' % (type(ex).__name__, ex), KNOWN_PRED)
+        # encoder
+        tch = [[t[:k], t[k:]] for t in docs for k in [rng.randrange(0, len(t) + 1)]]
+        case = {'op': 'incenc-reuse', 'texts': docs, 'encoding': e, 'chunks': tch}
+        try:
+            en = codecs.getincrementalencoder('css')(**kw(e, True, False))
+            got = []
+            for cs in tch:
+                got.append(b''.join(en.encode(c, i == len(cs) - 1) for i, c in enumerate(cs)))
+                en.reset()
+            if got != datas and not raw:
+                ctx.violation('incenc-reuse', case, 'one encoder, reset() between documents: %r; one-shot: %r' % (got, datas), KNOWN_PRED)
+        except Exception as ex:
+            ctx.violation('incenc-reuse', case, 'reused encoder raised %s: %s' % (type(ex).__name__, ex), KNOWN_PRED)
+        # a text stream read twice
+        if e:
+            case = {'op': 'textio-reread', 'data': list(datas[0]), 'encoding': e}
+            try:
+                f = io.TextIOWrapper(io.BytesIO(datas[0]), encoding='css', newline='')
+                a = f.read()
+                f.seek(0)
+                b2 = f.read()
+                one = codecs.decode(datas[0], 'css')
+                if a != one or b2 != one:
+                    ctx.violation('incdec-reuse', case, 'TextIOWrapper read %r, after seek(0) %r; one-shot %r' % (a, b2, one), KNOWN_PRED)
+            except (UnicodeError, LookupError):
+                pass    # the declared name is no (text) encoding: the one-shot call refuses it too
+            except Exception as ex:
+                ctx.violation('incdec-reuse', case, 'TextIOWrapper raised %s: %s' % (type(ex).__name__, ex), KNOWN_PRED)
+
+
 def run(ctx):
     import cssutils  # noqa: F401  (registers the codec)
     from harness import impl
@@ -840,11 +908,13 @@ def run(ctx):
         encoder_cases(ctx, batch, stats, 1200, 9, 8)
         nrt = roundtrip(ctx, 120)
         iter_methods(ctx, 200)
+        reuse_after_reset(ctx, 300)
     else:
         decoder_cases(ctx, batch, stats, 24000, 11, 20)
         encoder_cases(ctx, batch, stats, 20000, 11, 20)
         nrt = roundtrip(ctx, 2400)
         iter_methods(ctx, 4000)
+        reuse_after_reset(ctx, 6000)
     ctx.extra['roundtrip_pairs'] = nrt
     ctx.sample({'op': 'incdec', 'data': list('@charset "x";\xe9'.encode('utf-16')), 'chunks': 'every cut-point subset'})
     ctx.sample({'op': 'detect_str', 'data': [0xFF, 0xFE, 0x00], 'final': True})
